@@ -153,43 +153,48 @@ def pow10Row (i : Nat) : Nat × Nat :=
 
 def clz64 (x : Nat) : Nat := if x == 0 then 64 else 63 - Nat.log2 x
 
+/-- "Multiplication" and "Wider Approximation": the (possibly widened) 128-bit product approximation `(hi, lo)` of
+    `w` (normalised mantissa) times the table row, or `none` when the algorithm gives up -/
+def elMerged (w rowLo rowHi : Nat) : Option (Nat × Nat) :=
+  let x := w * rowHi
+  let xHi := x / two64
+  let xLo := x % two64
+  let wide := xHi % 512 == 511 && (xLo + w) % two64 < w
+  if wide then
+    let y := w * rowLo
+    let yHi := y / two64
+    let yLo := y % two64
+    let mergedLo := (xLo + yHi) % two64
+    let mergedHi := if mergedLo < xLo then (xHi + 1) % two64 else xHi
+    if mergedHi % 512 == 511 && (mergedLo + 1) % two64 == 0 && (yLo + w) % two64 < w then none
+    else some (mergedHi, mergedLo)
+  else some (xHi, xLo)
+
+/-- "Shifting to 54 Bits", "Half-way Ambiguity", "From 54 to 53 Bits" and the exponent check -/
+def elFinish (xHi xLo retExp2 : Nat) (neg : Bool) : Option Nat :=
+  let msb := xHi / 2^63
+  let retMantissa := xHi >>> (msb + 9)
+  let retExp2 := (retExp2 + two64 - (1 ^^^ msb)) % two64
+  if xLo == 0 && xHi % 512 == 0 && retMantissa % 4 == 1 then none
+  else
+    let retMantissa := (retMantissa + retMantissa % 2) / 2
+    let me : Nat × Nat := if retMantissa / 2^53 > 0 then (retMantissa / 2, (retExp2 + 1) % two64) else (retMantissa, retExp2)
+    if (me.2 + two64 - 1) % two64 ≥ 0x7FF - 1 then none
+    else some ((me.2 * 2^52) % two64 ||| (me.1 % 2^52) ||| Spec.signBit neg)
+
 /-- `eiselLemire64(man, exp10, neg)` -/
 def eiselLemire64 (man : Nat) (exp10 : Int) (neg : Bool) : Option Nat :=
   if man == 0 then some (Spec.signBit neg)
   else if exp10 < Gen.pow10MinExp || Gen.pow10MaxExp < exp10 then none
   else
     let clz := clz64 man
-    let man := (man <<< clz) % two64
-    -- uint64(217706*exp10>>16 + 64 + 1023) - uint64(clz)
-    let retExp2 : Nat := (((217706 * exp10) >>> 16) + 64 + 1023 - (clz : Int)).toNat % two64
-    let idx := (exp10 - Gen.pow10MinExp).toNat
-    let (rowLo, rowHi) := pow10Row idx
-    let x := man * rowHi
-    let xHi := x / two64
-    let xLo := x % two64
-    let wide := xHi % 512 == 511 && (xLo + man) % two64 < man
-    let merged : Option (Nat × Nat) :=
-      if wide then
-        let y := man * rowLo
-        let yHi := y / two64
-        let yLo := y % two64
-        let mergedLo := (xLo + yHi) % two64
-        let mergedHi := if mergedLo < xLo then (xHi + 1) % two64 else xHi
-        if mergedHi % 512 == 511 && (mergedLo + 1) % two64 == 0 && (yLo + man) % two64 < man then none
-        else some (mergedHi, mergedLo)
-      else some (xHi, xLo)
-    match merged with
+    let w := (man <<< clz) % two64
+    -- uint64(217706*exp10>>16 + 64 + 1023) - uint64(clz): a negative sum wraps around (it is *not* clamped to 0)
+    let retExp2 : Nat := ((((217706 * exp10) >>> 16) + 64 + 1023 - (clz : Int)) % (two64 : Int)).toNat
+    let row := pow10Row (exp10 - Gen.pow10MinExp).toNat
+    match elMerged w row.1 row.2 with
     | none => none
-    | some (xHi, xLo) =>
-      let msb := xHi / 2^63
-      let retMantissa := xHi >>> (msb + 9)
-      let retExp2 := (retExp2 + two64 - (1 ^^^ msb)) % two64
-      if xLo == 0 && xHi % 512 == 0 && retMantissa % 4 == 1 then none
-      else
-        let retMantissa := (retMantissa + retMantissa % 2) / 2
-        let (retMantissa, retExp2) := if retMantissa / 2^53 > 0 then (retMantissa / 2, (retExp2 + 1) % two64) else (retMantissa, retExp2)
-        if (retExp2 + two64 - 1) % two64 ≥ 0x7FF - 1 then none
-        else some ((retExp2 * 2^52) % two64 ||| (retMantissa % 2^52) ||| Spec.signBit neg)
+    | some (xHi, xLo) => elFinish xHi xLo retExp2 neg
 
 /-! ## decimal -/
 
